@@ -64,7 +64,7 @@ register('C12', 'fault_enumeration',
          "deterministic simulation: simulated file tree + stub network peer + audit-hook monitor, enumerated with fetch-fault injection",
          'DESIGN.md 3 C12')
 register('C13', 'fault_enumeration',
-         "every (payload, channel) pair of the catalogue (10 entity/DTD payloads + 3 benign x 39 channels) is enumerated "
+         "every (payload, channel) pair of the catalogue (10 entity/DTD payloads + 3 benign x 33 channels) is enumerated "
          "each run; defuse mode, role (instance, lazy instance, via schema settings, main/included/imported/redefined "
          "schema, schema reached through a hint or handed to the document-level API, from_settings, XmlDocument.parse), "
          "prolog variant (BOM, UTF-16, latin-1, padding past 8/16/64 KiB) and delivery plan (incl. cuts inside '<!ENTITY') "
